@@ -741,3 +741,291 @@ func E6ScannerSites(c *core.Ctx, r *core.Report) {
 		r.Fail("E6.image-size", "renderers/rasterizer|Draw~New", c.Pos(rfd.Pos()), fmt.Sprintf("image size expressions differ or are not width x height x resolution: %v", shapes))
 	}
 }
+
+// ---- stroke-width frame rule: native width is view-scaled, fall-back outline width is not ----
+
+type wfCfg struct {
+	scaled bool
+	atoms  string // ";atom=T;atom=F" valuation of boolean atoms (locals and pure niladic predicates)
+}
+
+type wfState map[wfCfg]bool
+
+func wfAtomVal(cfg wfCfg, atom string) tri {
+	if strings.Contains(cfg.atoms, ";"+atom+"=T") {
+		return tTrue
+	}
+	if strings.Contains(cfg.atoms, ";"+atom+"=F") {
+		return tFalse
+	}
+	return tUnknown
+}
+
+func wfSetAtom(cfg wfCfg, atom string, v bool) wfCfg {
+	cfg = wfDropAtom(cfg, func(a string) bool { return a == atom })
+	if v {
+		cfg.atoms += ";" + atom + "=T"
+	} else {
+		cfg.atoms += ";" + atom + "=F"
+	}
+	parts := strings.Split(cfg.atoms, ";")
+	sort.Strings(parts)
+	cfg.atoms = ""
+	for _, p := range parts {
+		if p != "" {
+			cfg.atoms += ";" + p
+		}
+	}
+	return cfg
+}
+
+func wfDropAtom(cfg wfCfg, drop func(atom string) bool) wfCfg {
+	var keep []string
+	for _, p := range strings.Split(cfg.atoms, ";") {
+		if p == "" {
+			continue
+		}
+		if !drop(p[:len(p)-2]) {
+			keep = append(keep, p)
+		}
+	}
+	cfg.atoms = ""
+	for _, p := range keep {
+		cfg.atoms += ";" + p
+	}
+	return cfg
+}
+
+// boolAtoms lists the atoms of a condition: bool identifiers and niladic method calls on identifiers/selectors.
+func boolAtoms(info *types.Info, e ast.Expr, out map[string]bool) {
+	e = core.Unparen(e)
+	switch x := e.(type) {
+	case *ast.Ident:
+		if b, ok := info.TypeOf(x).Underlying().(*types.Basic); ok && b.Info()&types.IsBoolean != 0 && x.Name != "true" && x.Name != "false" {
+			out[x.Name] = true
+		}
+	case *ast.CallExpr:
+		if len(x.Args) == 0 {
+			if _, ok := x.Fun.(*ast.SelectorExpr); ok && pureCond(x) {
+				out[types.ExprString(x)] = true
+			}
+		}
+	case *ast.UnaryExpr:
+		boolAtoms(info, x.X, out)
+	case *ast.BinaryExpr:
+		if x.Op == token.LAND || x.Op == token.LOR {
+			boolAtoms(info, x.X, out)
+			boolAtoms(info, x.Y, out)
+		}
+	}
+}
+
+// E6WidthFrame: the stroke width is in the right coordinate frame at every use.
+func E6WidthFrame(c *core.Ctx, r *core.Report) {
+	r.Rule("E6.width-frame", "in the SVG/PDF/PS RenderPath the style's stroke width (and with it the width-relative dash pattern) is multiplied by the view scale on every path that reaches a native stroke-width emission, and on no path that reaches the explicit outline fall-back X.Stroke(style.StrokeWidth, …), whose result is transformed by the view afterwards (path-sensitive over the function's boolean locals and pure predicates); the rasterizer never scales it")
+	for _, b := range backends {
+		p := c.MustPkg(b.rel)
+		info := p.TypesInfo
+		fd := core.MustFuncDecl(p, b.recv+".RenderPath")
+		style := paramObj(info, fd, 1)
+		isStyleWidth := func(e ast.Expr) bool {
+			se, ok := core.Unparen(e).(*ast.SelectorExpr)
+			if !ok || se.Sel.Name != "StrokeWidth" {
+				return false
+			}
+			id, ok := core.Unparen(se.X).(*ast.Ident)
+			return ok && core.ObjOf(info, id) == style
+		}
+		mentionsWidth := func(e ast.Expr) bool {
+			found := false
+			ast.Inspect(e, func(n ast.Node) bool {
+				if ex, ok := n.(ast.Expr); ok && isStyleWidth(ex) {
+					found = true
+				}
+				return !found
+			})
+			return found
+		}
+		ord := map[string]int{}
+		site := func(kind string, pos token.Pos, s wfState, wantScaled bool) {
+			ord[kind]++
+			key := fmt.Sprintf("%s.%s.RenderPath|%s #%d", b.rel, b.recv, kind, ord[kind])
+			r.Count("E6.width-sites", 1)
+			bad := false
+			for cfg := range s {
+				if cfg.scaled != wantScaled {
+					bad = true
+				}
+			}
+			if !bad {
+				r.OK("E6.width-frame", key, c.Pos(pos), fmt.Sprintf("%d path configurations", len(s)))
+			} else if wantScaled {
+				r.Fail("E6.width-frame", key, c.Pos(pos), "the native stroke width can be emitted without having been multiplied by the view scale: under a scaling view the stroke is too thin/thick compared with the rasterizer")
+			} else {
+				r.Fail("E6.width-frame", key, c.Pos(pos), "the explicit outline is stroked with a width that was already multiplied by the view scale and is then transformed by the view again: under a scaling similarity view the outline is scale times too wide (and its dashes are scaled twice)")
+			}
+		}
+		checkExpr := func(e ast.Expr, s wfState) {
+			ast.Inspect(e, func(n ast.Node) bool {
+				call, ok := n.(*ast.CallExpr)
+				if !ok {
+					return true
+				}
+				f := core.CalleeOf(info, call)
+				if f == nil {
+					return true
+				}
+				switch {
+				case core.QualifiedCallee(f) == core.Module+".Path.Stroke" && len(call.Args) > 0 && isStyleWidth(call.Args[0]):
+					site("fall-back Stroke", call.Pos(), s, false)
+				case strings.EqualFold(f.Name(), "setlinewidth") && len(call.Args) == 1 && isStyleWidth(call.Args[0]):
+					site("native width", call.Pos(), s, true)
+				case f.Pkg() != nil && f.Pkg().Path() == "fmt" && f.Name() == "Fprintf" && len(call.Args) > 2:
+					if format, ok := constString(info, call.Args[1]); ok && strings.Contains(format, "stroke-width") {
+						for _, a := range call.Args[2:] {
+							if mentionsWidth(a) {
+								site("native width", call.Pos(), s, true)
+							}
+						}
+					}
+				}
+				return true
+			})
+		}
+		copyState := func(s wfState) wfState {
+			out := wfState{}
+			for k := range s {
+				out[k] = true
+			}
+			return out
+		}
+		fl := &core.Flow[wfState]{
+			Join: func(a, b wfState) wfState {
+				out := copyState(a)
+				for k := range b {
+					out[k] = true
+				}
+				return out
+			},
+			Equal: func(a, b wfState) bool {
+				if len(a) != len(b) {
+					return false
+				}
+				for k := range a {
+					if !b[k] {
+						return false
+					}
+				}
+				return true
+			},
+			Dead:   func() wfState { return nil },
+			IsDead: func(s wfState) bool { return s == nil },
+			Exit:   func(ast.Node, wfState) {},
+			Expr: func(e ast.Expr, s wfState) wfState {
+				checkExpr(e, s)
+				return s
+			},
+			Stmt: func(st ast.Stmt, s wfState) (wfState, bool) {
+				as, ok := st.(*ast.AssignStmt)
+				if !ok {
+					return s, false
+				}
+				for _, rhs := range as.Rhs {
+					checkExpr(rhs, s)
+				}
+				out := wfState{}
+				for cfg := range s {
+					n := cfg
+					for i, l := range as.Lhs {
+						ls := types.ExprString(l)
+						if isStyleWidth(l) {
+							n.scaled = true
+						}
+						// a boolean local assigned a constant; anything else forgets it
+						if id, ok := l.(*ast.Ident); ok {
+							if b, ok := info.TypeOf(id).Underlying().(*types.Basic); ok && b.Info()&types.IsBoolean != 0 {
+								if len(as.Lhs) == len(as.Rhs) {
+									if cid, ok := core.Unparen(as.Rhs[i]).(*ast.Ident); ok && (cid.Name == "true" || cid.Name == "false") {
+										n = wfSetAtom(n, id.Name, cid.Name == "true")
+										continue
+									}
+								}
+								n = wfDropAtom(n, func(a string) bool { return a == id.Name })
+								continue
+							}
+						}
+						// assignment to x.F invalidates predicates on x
+						root := core.RootIdent(l)
+						if root != nil {
+							n = wfDropAtom(n, func(a string) bool { return strings.HasPrefix(a, root.Name+".") || a == ls })
+						}
+					}
+					out[n] = true
+				}
+				return out, true
+			},
+			Split: func(cond ast.Expr, s wfState) (wfState, wfState, bool) {
+				if !pureCond(cond) {
+					return nil, nil, false
+				}
+				atoms := map[string]bool{}
+				boolAtoms(info, cond, atoms)
+				if len(atoms) == 0 || len(atoms) > 4 {
+					return nil, nil, false
+				}
+				var names []string
+				for a := range atoms {
+					names = append(names, a)
+				}
+				sort.Strings(names)
+				t, f := wfState{}, wfState{}
+				for cfg := range s {
+					// enumerate valuations of the atoms not yet fixed in this configuration
+					var free []string
+					for _, a := range names {
+						if wfAtomVal(cfg, a) == tUnknown {
+							free = append(free, a)
+						}
+					}
+					for mask := 0; mask < 1<<len(free); mask++ {
+						n := cfg
+						for i, a := range free {
+							n = wfSetAtom(n, a, mask&(1<<i) != 0)
+						}
+						env := func(e ast.Expr) tri {
+							switch x := e.(type) {
+							case *ast.Ident:
+								return wfAtomVal(n, x.Name)
+							case *ast.CallExpr:
+								return wfAtomVal(n, types.ExprString(x))
+							}
+							return tUnknown
+						}
+						switch evalBool(info, cond, env) {
+						case tTrue:
+							t[n] = true
+						case tFalse:
+							f[n] = true
+						default:
+							t[n] = true
+							f[n] = true
+						}
+					}
+				}
+				var tt, ff wfState = t, f
+				if len(t) == 0 {
+					tt = nil
+				}
+				if len(f) == 0 {
+					ff = nil
+				}
+				if len(t)+len(f) > 512 {
+					return nil, nil, false
+				}
+				return tt, ff, true
+			},
+		}
+		fl.Run(fd.Body, wfState{wfCfg{}: true})
+	}
+	r.Floor("E6.width-sites", 7)
+}
